@@ -456,6 +456,27 @@ _C14 = [
     {'module': 'boltons.strutils', 'qualname': 'parse_int_list', 'lean_name': 'parse_int_list',
      'params': {'range_string': 'Str', 'delim': 'Str', 'range_delim': 'Str'},
      'kind': 'function', 'result': 'List Int', 'raises': True, 'tie_theorem': 'C14.src_parse_int_list_eq_model'},
+    {'module': 'boltons.strutils', 'qualname': 'complement_int_list', 'lean_name': 'complement_int_list',
+     'params': {'range_string': 'Str', 'range_start': 'Int', 'range_end': 'Option Int', 'delim': 'Str',
+                'range_delim': 'Str'},
+     'kind': 'function', 'result': 'Str', 'raises': True, 'tie_theorem': 'C14.src_complement_int_list_eq_model'},
+    {'module': 'boltons.strutils', 'qualname': 'int_ranges_from_int_list', 'lean_name': 'int_ranges_from_int_list',
+     'params': {'range_string': 'Str', 'delim': 'Str', 'range_delim': 'Str'},
+     'kind': 'function', 'result': 'List (Int × Int)', 'raises': True,
+     'tie_theorem': 'C14.src_int_ranges_from_int_list_eq_model'},
+    {'module': 'boltons.strutils', 'qualname': 'args2sh', 'lean_name': 'args2sh',
+     'params': {'args': 'List Str', 'sep': 'Str'},
+     'kind': 'function', 'result': 'Str', 'raises': True, 'tie_theorem': 'C14.src_args2sh_eq_model'},
+]
+# `args2cmd` TRANSLATES and passes the translator self-test (iteration over the characters of a string, `str * int`,
+# nested loops, the flag read after the inner loop: rules `iter` / `mul` of py2lean_c14), but its tie theorem is not
+# proved yet (notes/SRCTIE.md section 1h): the spec is kept here, outside SPECS, so that the check does not list a
+# translated function without a theorem.  `PYTHONPATH=harness python -c "import py2lean_c14; py2lean_c14.selftest_pending()"`
+C14_PENDING = [
+    {'module': 'boltons.strutils', 'qualname': 'args2cmd', 'lean_name': 'args2cmd',
+     'params': {'args': 'List Str', 'sep': 'Str'},
+     'kind': 'function', 'result': 'Str', 'raises': True, 'tie_theorem': 'C14.src_args2cmd_eq_model',
+     'ext': 'py2lean_c14', 'gen_file': 'strutils_c14'},
 ]
 for _sp in _C14:
     _sp.update(ext='py2lean_c14', gen_file=_C14_GEN)
@@ -472,9 +493,16 @@ BUFFERED_SOCKET = {
             'sock.send': ('send', ['Bytes'], 'Int'), 'time.time': ('time', [], 'Time')},
 }
 _C12 = []
+_C12_TIED = 5          # how many of the methods below have their tie theorem in C12/SrcTie.lean
 for _py, _params, _res, _thm in [
         ('recv_size', {'size': 'Int', 'timeout': 'Unset (Option Time)'}, 'Bytes', 'C12.src_recv_size_eq_model'),
-        ]:
+        ('recv_until', {'delimiter': 'Bytes', 'timeout': 'Unset (Option Time)', 'maxsize': 'Unset (Option Int)',
+                        'with_delimiter': 'Bool'}, 'Bytes', 'C12.src_recv_until_eq_model'),
+        ('peek', {'size': 'Int', 'timeout': 'Unset (Option Time)'}, 'Bytes', 'C12.src_peek_eq_model'),
+        ('recv_close', {'timeout': 'Unset (Option Time)', 'maxsize': 'Unset (Option Int)'}, 'Bytes',
+         'C12.src_recv_close_eq_model'),
+        ('recv', {'size': 'Int', 'flags': 'Int', 'timeout': 'Unset (Option Time)'}, 'Bytes', 'C12.src_recv_eq_model'),
+        ][:_C12_TIED]:
     _C12.append({'module': 'boltons.socketutils', 'qualname': 'BufferedSocket.' + _py, 'lean_name': 'BufferedSocket.' + _py,
                  'cls': BUFFERED_SOCKET, 'params': _params, 'result': _res, 'tie_theorem': _thm,
                  'translator': 'py2lean_c12', 'py': _py, 'method': True, 'kind': 'function', 'raises': True})
@@ -490,13 +518,51 @@ _C15 = [
      'params': {'start': 'A', 'stop': 'A', 'count': 'Count', 'factor': 'A', 'jitter': 'A'}, 'result': 'A',
      'gen_file': 'iterutils_backoff', 'translator': 'py2lean_c15', 'raises': True,
      'tie_theorem': 'C15.src_backoff_iter_eq_model'},
+    {'module': 'boltons.iterutils', 'qualname': 'backoff', 'lean_name': 'backoff', 'kind': 'function',
+     'params': {'start': 'A', 'stop': 'A', 'count': 'Count', 'factor': 'A', 'jitter': 'A'}, 'result': 'ListA',
+     'gen_file': 'iterutils_backoff', 'translator': 'py2lean_c15', 'raises': True,
+     'tie_theorem': 'C15.src_backoff_eq_model'},
 ]
+
+# SpooledStringIO(SpooledIOBase): `_buffer` is a `codecs.EncodedFile(stream, data_encoding='utf-8')`, the spec-declared
+# abstract codec file `PyRtC18.CFile` = the hand model's stream + transliterated `codecs.StreamReader`.  The module constant
+# READ_CHUNK_SIZE is read through the state field `chunk` (`module_params`; the tie's initial state holds the regenerated
+# constant).  `seek` is translated twice: `seek0` FIXES `mode = 0` (what `len` and `rollover` call; it does not call `len`),
+# then `len`, then the full `seek`.
+SPOOLED_STRING = {
+    'name': 'SpooledStringIO', 'lean_name': 'SpooledStringIO', 'mro': ['SpooledStringIO', 'SpooledIOBase'],
+    'unit': 'Char', 'seq_class': 'str',
+    'buffer_property': {'name': 'buffer', 'field': '_buffer', 'new': "EncodedFile(BytesIO(), data_encoding='utf-8')"},
+    'state': {'_buffer': 'CFile', '_tell': 'Int', '_max_size': 'Int', '_dir': 'Opaque', 'chunk': 'Int'},
+    'module_params': {'READ_CHUNK_SIZE': 'chunk'},
+}
+_SS = _c18_methods(SPOOLED_STRING, [
+    {'py': 'closed', 'name': 'closed', 'params': {}, 'result': 'Bool', 'tie_theorem': 'C18.src_ss_closed_eq_model'},
+    {'py': '_checkClosed', 'name': 'checkClosed', 'params': {'msg': 'Option Opaque'}, 'result': 'None',
+     'tie_theorem': 'C18.src_ss_checkClosed_eq_model'},
+    {'py': '_rolled', 'name': 'rolled', 'params': {}, 'result': 'Bool', 'tie_theorem': 'C18.src_ss_rolled_eq_model'},
+    {'py': 'tell', 'name': 'tell', 'params': {}, 'result': 'Int', 'tie_theorem': 'C18.src_ss_tell_eq_model'},
+    {'py': 'read', 'name': 'read', 'params': {'n': 'Int'}, 'result': 'Str', 'tie_theorem': 'C18.src_ss_read_eq_model'},
+    {'py': '_traverse_codepoints', 'name': 'traverse', 'params': {'current_position': 'Int', 'n': 'Int'},
+     'result': 'Int', 'tie_theorem': 'C18.src_ss_traverse_eq_model'},
+    {'py': 'seek', 'name': 'seek0', 'params': {'pos': 'Int'}, 'fixed': {'mode': 0}, 'result': 'Int',
+     'tie_theorem': 'C18.src_ss_seek0_eq_model'},
+    {'py': 'len', 'name': 'len', 'params': {}, 'result': 'Int', 'tie_theorem': 'C18.src_ss_len_closed'},
+    {'py': 'seek', 'name': 'seek', 'params': {'pos': 'Int', 'mode': 'Int'}, 'result': 'Int',
+     'tie_theorem': 'C18.src_ss_seek_bad_mode'},
+    {'py': 'rollover', 'name': 'rollover', 'params': {}, 'result': 'None',
+     'tie_theorem': 'C18.src_ss_rollover_rolled'},
+    {'py': 'write', 'name': 'write', 'params': {'s': 'Str'}, 'result': 'None',
+     'tie_theorem': 'C18.src_ss_write_closed'},
+    {'py': 'readline', 'name': 'readline', 'params': {'length': 'Option Int'}, 'result': 'Str',
+     'tie_theorem': 'C18.src_ss_readline_closed'},
+])
 
 SPECS = {
     'C14': _C14,
     'C12': _C12,
     'C15': _C15,
-    'C18': _MFR + _SB,
+    'C18': _MFR + _SB + _SS,
     'C13': _FB,
     'C01': _OMD,
     'C05': _C05,
@@ -570,6 +636,15 @@ _C19 = [
      'translator': 'py2lean_c19', 'ext': 'py2lean_c19', 'gen_file': 'strutils_lines',
      'c19': {'text': ['text'], 'text_params': ['margin', 'newline'], 'poly_text': True, 'pred': {'key': 'line_key'},
              'join': True}},
+    # binary mode: `file_obj` is a binary file object WITHOUT `.encoding` / `.detach` (io.BytesIO) = (content, position);
+    # `encoding` is None; a byte is an item of β with [PyRtC19.Byte β]
+    {'module': 'boltons.jsonutils', 'qualname': 'reverse_iter_lines', 'lean_name': 'reverse_iter_lines',
+     'params': {'file_data': 'List β', 'file_pos': 'Int', 'blocksize': 'Int', 'preseek': 'Bool'},
+     'tparams': ['β'], 'deceq': ['β'], 'classes': ['PyRtC19.Byte β'],
+     'kind': 'generator', 'result': 'List β', 'raises': True, 'loop_fuel': True,
+     'tie_theorem': 'C19.src_reverse_iter_lines_eq_model',
+     'translator': 'py2lean_c19', 'ext': 'py2lean_c19', 'gen_file': 'jsonutils_lines',
+     'c19': {'file': {'param': 'file_obj', 'data': 'file_data', 'pos': 'file_pos'}, 'none_params': ['encoding']}},
 ]
 SPECS['C19'] = _C19
 # boltons.setutils.IndexedSet (round 3d, C11): the tombstone / dead-interval bookkeeping, translated by
@@ -591,11 +666,63 @@ _ISET = []
 for _m in [
     {'py': '_add_dead', 'name': 'add_dead', 'params': {'start': 'Int', 'stop': 'Option Int'}, 'result': 'None',
      'tie_theorem': 'C11.src_add_dead_eq_model'},
+    {'py': '_dead_index_count', 'name': 'dead_index_count', 'params': {}, 'result': 'Int', 'property': True,
+     'tie_theorem': 'C11.src_dead_index_count_eq_model'},
+    {'py': '__len__', 'name': 'len', 'params': {}, 'result': 'Int', 'tie_theorem': 'C11.src_len_eq_model'},
+    {'py': 'add', 'name': 'add', 'params': {'item': 'Key'}, 'result': 'None', 'tie_theorem': 'C11.src_add_eq_model'},
+    {'py': '_compact', 'name': 'compact', 'params': {}, 'result': 'None', 'tie_theorem': 'C11.src_compact_eq_model'},
+    {'py': '_cull', 'name': 'cull', 'params': {}, 'result': 'None', 'tie_theorem': 'C11.src_cull_eq_model'},
+    {'py': 'remove', 'name': 'remove', 'params': {'item': 'Key'}, 'result': 'None',
+     'tie_theorem': 'C11.src_remove_eq_model'},
+    {'py': 'discard', 'name': 'discard', 'params': {'item': 'Key'}, 'result': 'None',
+     'tie_theorem': 'C11.src_discard_eq_model'},
 ]:
     _sp = dict(_m, module='boltons.setutils', cls=INDEXED_SET, method=True, translator='py2lean_c11',
                gen_file='setutils_iset', qualname='IndexedSet.' + _m['py'], lean_name='IndexedSet.' + _m['name'],
                kind='function', raises=True)
     del _sp['name']
     _ISET.append(_sp)
+# only the methods whose tie theorem exists are registered (callees come before their callers)
+_ISET_TIED = ('_add_dead', '_dead_index_count', '__len__', 'add', '_compact')
+_ISET = [_sp for _sp in _ISET if _sp['py'] in _ISET_TIED]
 INDEXED_SET['methods'] = _ISET
 SPECS['C11'] = SPECS['C11'] + _ISET
+
+# boltons.iterutils remap callbacks and get_path (round 3e, C08): OBJECT-GRAPH MODE, translated by harness/py2lean_c08.py
+# (notes/SRCTIE.md section "Object-graph mode").  Objects are references `V` into an abstract store `σ`, keys / path
+# segments are `K`; every duck-typed operation on an object is a field of the parameter record `PyRtC08.Ops σ V K`
+# (SPEC-DECLARED OPERATIONS); exceptions are values (class only).  `OptV` = the `_UNSET` sentinel or a value.
+# `static_false`: isinstance tests decided by the declared parameter type (a dotted-string path is outside the tie).
+_C08 = [
+    {'qualname': 'default_visit', 'params': {'path': 'Path', 'key': 'K', 'value': 'V'}, 'result': 'KV',
+     'tie_theorem': 'C08.src_default_visit_eq_model'},
+    {'qualname': 'default_enter', 'params': {'path': 'Path', 'key': 'K', 'value': 'V'}, 'result': 'EnterRes',
+     'tie_theorem': 'C08.src_default_enter_eq_model'},
+    {'qualname': 'default_exit', 'params': {'path': 'Path', 'key': 'K', 'old_parent': 'V', 'new_parent': 'V',
+                                             'new_items': 'Pairs'}, 'result': 'V',
+     'tie_theorem': 'C08.src_default_exit_eq_model'},
+    {'qualname': 'get_path', 'params': {'root': 'V', 'path': 'Path', 'default': 'OptV'}, 'result': 'V',
+     'sentinel': '_UNSET', 'static_false': [('path', 'str')], 'tie_theorem': 'C08.src_get_path_eq_model'},
+]
+for _sp in _C08:
+    _sp.update(module='boltons.iterutils', lean_name=_sp['qualname'], kind='function', raises=True,
+               translator='py2lean_c08', gen_file='iterutils_remap')
+# the main loop of remap (LOOP MODE, notes/SRCTIE.md 7.6): from the initialisation of `stack` to `return value`; the
+# callbacks are function parameters, `visit is _orig_default_visit` is the Bool `visit_is_default`, `reraise_visit` a Bool,
+# the `None` key of the root entry is `none_key`; statements printing under a trace flag are not modelled.
+_C08_LOOP = {
+    'qualname': 'remap', 'lean_name': 'remap_loop', 'kind': 'loop', 'result': 'V', 'raises': True,
+    'module': 'boltons.iterutils', 'translator': 'py2lean_c08', 'gen_file': 'iterutils_remap',
+    'params': {'root': 'V', 'visit': 'VisitFn', 'enter': 'EnterFn', 'exit': 'ExitFn', 'visit_is_default': 'Bool',
+               'reraise_visit': 'Bool', 'none_key': 'K'},
+    'loop': {'signature': ['root', 'visit', 'enter', 'exit'], 'stack': 'stack', 'exit_marker': '_REMAP_EXIT',
+             'none_key': 'none_key', 'result_var': 'value',
+             'locals': {'path': 'Path', 'registry': 'Registry', 'stack': 'Stack', 'new_items_stack': 'NIS', 'entered': 'Vals'},
+             'callbacks': {'enter': ('enter', ['Path', 'K', 'V'], 'EnterRes'),
+                           'exit': ('exit_', ['Path', 'K', 'V', 'V', 'Pairs'], 'V'),
+                           'visit': ('visit', ['Path', 'K', 'V'], 'VisitRes')},
+             'identity_flags': [('visit', '_orig_default_visit', 'visit_is_default')],
+             'trace_flags': ['trace_enter', 'trace_exit', 'trace_visit']},
+    'tie_theorem': 'C08.src_remap_loop_simulates_hstep'}
+_C08.append(_C08_LOOP)
+SPECS['C08'] = _C08
